@@ -88,7 +88,7 @@ def eval_doc(args):
 
 
 def run(tier, seed, open_findings):
-    rng = random.Random(seed); n = 400 if tier == 'thorough' else 120
+    rng = random.Random(seed); n = 2400 if tier == 'thorough' else 120
     docs = []
     for i in range(n):
         d = docgen.gen(rng, rng.randrange(1, 5))
